@@ -161,3 +161,20 @@ func (c *Conn) ArmWriteLocked(f WFault) { c.wfaults = append(c.wfaults, f) }
 
 // ArmReadLocked is ArmRead for callers which hold the world lock.
 func (c *Conn) ArmReadLocked(f RFault) { c.rfaults = append(c.rfaults, f) }
+
+// ExpireStalledRead simulates the passing of PauseTimeout: when the read
+// routine waits for input with a deadline set, the Read times out. It reports
+// whether a Read was expired.
+func (w *World) ExpireStalledRead() bool {
+	w.mu.Lock()
+	defer w.mu.Unlock()
+	for _, c := range w.Conns {
+		if c.readerParked && c.rdl && !c.deliverable() {
+			c.expireNow = true
+			w.log(Event{Kind: EvNote, Conn: c.N, Str: "PauseTimeout passes: parked Read expires"})
+			w.cond.Broadcast()
+			return true
+		}
+	}
+	return false
+}
